@@ -1,12 +1,70 @@
 """C04 -- window functions see exactly the documented segment and keep row count."""
-import json
-import re
+from ..common import Check
+from ..translate import gen_split, gen_window
+from . import c04_corr as C
+from . import c04_e2e as S
 
-from ..common import Check, coq_eval, harness
-from ..rel import prog as P, run as R, e2e as E, wingen as W
-from . import c04_streams as S
+TRUSTED = [
+    "Coq 8.16.1 kernel (coqc, vm_compute); no axioms (every theorem: Closed under the global context)",
+    "translator vplib/translate/gen_window.py (std.sql.prql and std.prql through prqlc's own parser; scanners over the `window` arm of semantic/resolver/transforms.rs, translate_windowed / try_into_window_frame of sql/gen_expr.rs, Complexity / infer_complexity / can_materialize / get_requirements of sql/pq/anchor.rs; shape checks of flatten.rs and lowering.rs; fail closed) and vplib/translate/gen_split.py (is_split_required)",
+    "SPECIFICATION of SQL window frames in coq/Model/Frame.v (sql_frame_segment: ROWS by position, RANGE by peers / key distance, the implicit frame of an OVER without frame clause; sframe_ok) and of where SQL admits a window function (Model/WindowFns.v sql_admits_window) -- hand-written, validated against SQLite by the end-to-end streams",
+    "reference semantics coq/Model/Rel.v + Model/Value.v (C01) and its extension Model/Window.v (rank_dense, window columns over all 12 functions) = formalisation of the documented meaning (book: reference/stdlib/transforms/window.md)",
+    "end-to-end oracle: window program builder vplib/rel/wingen.py (+ vplib/rel/prog.py), harness (prqlc::compile, prqlc::pl_to_rq, rusqlite bundled SQLite), comparison in vplib/rel/run.py",
+    "modelled, not verified: Model/Frame.v frame_of / emit_frame restate transforms.rs / gen_expr.rs (tied by the Gen obligations c04_gen_* and by the exhaustive correspondence stream); the resolver, flatten.rs (partition/sort/frame propagation), lowering.rs (Compute.window), the split/complexity search of anchor.rs and projection/expression generation are tied only by the RQ/OVER correspondence and the end-to-end oracle",
+]
+
+
+def supports_from(info):
+    if "error" in info:
+        return None
+    tbl = {}
+    for f in info["fns"]:
+        if f["module"] == "":
+            tbl.setdefault(f["name"], f["window_frame"])
+    for f in info["fns"]:
+        if f["module"] == "sqlite":
+            tbl[f["name"]] = f["window_frame"]
+    return tbl
 
 
 def run():
     ck = Check("C04", level="proof")
-    S.run_all(ck)
+    info = gen_window.generate()
+    info_split = gen_split.generate()
+    pr = ck.prove()
+    for nm, i in (("gen_window", info), ("gen_split", info_split)):
+        if "error" in i:
+            ck.coverage["translator_error_" + nm] = i["error"]
+    broken = not pr["ok"]
+    mult = 3 if broken else 1
+    targets = ("sql.sqlite", "sql.generic")
+
+    # Tie B: frame_of vs RQ Compute.window; emit_frame vs the OVER (...) text -- exhaustive
+    C.run(ck, supports_from(info))
+
+    # end-to-end: SQLite vs the reference semantics
+    cases = S.with_instances(ck, S.directed_cases(ck), n_inst=mult)
+    S.run_stream(ck, "frames", cases, targets)
+    cases = S.with_instances(ck, S.f22_cases(ck), n_inst=1)
+    S.run_stream(ck, "first-last", cases, targets)
+    cases = S.with_instances(ck, S.placement_cases(ck), n_inst=mult)
+    S.run_stream(ck, "placement", cases, targets)
+    cases = S.with_instances(ck, S.empty_range_cases(ck), n_inst=1)
+    S.run_stream(ck, "empty-range", cases, targets)
+    cases = S.with_instances(ck, S.sortdirect_cases(ck), n_inst=1)
+    S.run_stream(ck, "sort-key", cases, targets)
+    S.run_stream(ck, "random", S.random_cases(ck, ck.n(1000, 8000) * mult), targets)
+
+    ck.proof_broken_violation(found_input=bool(ck.violations))
+    ck.assumptions += [
+        "instances: 4..7 rows; id unique non-null with gaps, insertion order shuffled; a, b in {NULL,-1,0,1,2,3,5} with duplicates; c non-null with duplicates and gaps; g in {NULL,1,2}",
+        "determinism domain: either the sort keys end in the unique key id, or (ties / no sort) the function arguments only mention partition and sort key columns and the result is projected to those columns + the window columns and compared as a multiset",
+        "range frames only over one ascending non-null integer sort key (the domain of Rel.v's FRange and of range_key_ok); descending or multi-key range frames and range frames without sort are outside the model",
+        "rows/range arguments with start > end: the book's meaning (empty segment) is the reference; the implementation's defaulting (whole partition) is modelled in Frame.v frame_of, tied by the correspondence stream and recorded as F52",
+        "results are compared as multisets (sequence order is C03's clause; order sensitivity enters through take after a sort by a windowed value); column names are C05's clause",
+        "sql.generic output is executed on SQLite",
+    ]
+    ck.finish(TRUSTED, "frame-corr = exhaustive: 12 functions x sorted/unsorted x grouped/ungrouped x {rows,range} x bounds {open,-2..2}^2 (incl. empty ranges) + rolling -1..3 + expanding + argument combinations, model (kind,start,end) vs RQ Compute.window and model clause text vs OVER (...) text. "
+              "End-to-end streams (each case = program x instance x target): frames = partition {none,g} x 9 sort modes x every frame x 3 of the 12 functions per program (quick: every frame under the modes id and c, a sample elsewhere; thorough: all, 4 function triples); first-last = first/last under every frame class; "
+              "placement = derive/select/filter/sort-by-value x context before (filter/take/group-aggregate = an earlier SELECT) and after (filter/take/aggregate/group-aggregate/derive/second window); empty-range = rows/range arguments with start > end; sort-key = a window function written directly as sort key; random = prog.Gen pipelines with window steps over all functions/frames. "
+              "distinct = hash of (program, target, instance); non-trivial = non-empty result or a failure")
